@@ -1,5 +1,6 @@
 /- C07: kernel-checked witnesses (every `theorem` here is closed by `decide`: the kernel evaluates the translated folder). -/
 import ChibiVerif.Props.C07
+import ChibiVerif.Props.C07Float
 
 namespace ChibiVerif.Findings.C07
 open ChibiVerif.Host ChibiVerif.Gen.ConstEval ChibiVerif.Spec.Const ChibiVerif.ConstElab ChibiVerif.ConstEvalLemmas
@@ -54,5 +55,44 @@ theorem C07_fixed_div_zero :
 theorem C07_fixed_mod_const : isConstExpr .wrapping noFp (elabE (.bin .mod (.lit .i32 7) (.lit .i32 4))) = .ok true := by decide
 /-- `static _Bool b = 2;` stored 2 -/
 theorem C07_fixed_bool_init : storeGvar .wrapping noFp (descr .bool) (elabE (.lit .i32 2)) 2#64 = .ok 1#64 := by decide
+
+/-! ## Floating folding, kernel-evaluated on the software FPU (`SoftFp.softHost`: real binary32 / binary64 / x87 formats) -/
+
+section float
+open ChibiVerif.Spec.ConstF ChibiVerif.SoftFp
+set_option maxRecDepth 100000
+
+/-- `1.8e19` as the tokenizer holds it (a `double` constant: fval = 0x403e f9cc d8a1 c508 0000) -/
+def c1_8e19 : AExpr := .flit .f64 0x403ef9ccd8a1c5080000#80
+
+/-- **Repaired (6a09034)**: `static unsigned long a = 1.8e19;` (a floating initializer of an unsigned long object, no cast node)
+    was folded through `int64_t` — `eval2` on the raw floating node, the x86 integer indefinite 0x8000000000000000 — while the
+    run-time conversion gives 18000000000000000000.  `write_gvar_data` now converts such an initializer with
+    `(uint64_t)eval_double(init->expr)`: the scalar path stores the C11 value; the old path, still expressible in the model,
+    does not (regression witness). -/
+theorem C07_fixed_float_init_u64 :
+    storeGvarScalar .wrapping softHost (descr .u64) (elabA c1_8e19) = .ok 18000000000000000000#64 ∧
+    (eval2 .wrapping softHost (elabA c1_8e19) true >>= fun v => storeGvar .wrapping softHost (descr .u64) (elabA c1_8e19) v)
+      = .ok 0x8000000000000000#64 := by decide
+
+/-- **Repaired (d20bf97)**: `(unsigned long)1.8e19` and `(unsigned long)9223372036854775808.0` fold to the run-time value
+    (the ND_CAST arm converts a floating operand of an unsigned 8-byte cast with `(uint64_t)eval_double`) -/
+theorem C07_fixed_cast_u64 :
+    eval2 .wrapping softHost (elabA (.cast (.int .u64) c1_8e19)) false = .ok 18000000000000000000#64 ∧
+    eval2 .wrapping softHost (elabA (.cast (.int .u64) (.flit .f64 0x403e8000000000000000#80))) false = .ok 9223372036854775808#64 ∧
+    Spec.ConstF.eval ops (.cast (.int .u64) c1_8e19) = some (.int 18000000000000000000) := by decide
+
+/-- instances of `C07_fold_float` on the real formats: `1.0f / 3.0f` (one single-precision division, 0x3eaaaaab),
+    `0.1 + 0.2` (0x3fd3333333333334, not 0.3), `(float)16777217` (rounds to 16777216), `0.1f == 0.1` (false) -/
+theorem C07_float_instances :
+    storeGvarF32 .wrapping softHost (elabA (.bin .div (.flit .f32 0x3fff8000000000000000#80) (.flit .f32 0x4000c000000000000000#80)))
+      = .ok 0x3eaaaaab#32 ∧
+    storeGvarF64 .wrapping softHost (elabA (.bin .add (.flit .f64 0x3ffbccccccccccccd000#80) (.flit .f64 0x3ffcccccccccccccd000#80)))
+      = .ok 0x3fd3333333333334#64 ∧
+    storeGvarF32 .wrapping softHost (elabA (.cast (.flt .f32) (.ilit .i32 16777217))) = .ok 0x4b800000#32 ∧
+    eval2 .wrapping softHost (elabA (.bin .eq (.flit .f32 0x3ffbcccccd0000000000#80) (.flit .f64 0x3ffbccccccccccccd000#80))) false = .ok 0#64 := by
+  decide
+
+end float
 
 end ChibiVerif.Findings.C07
